@@ -254,6 +254,9 @@ struct EncCfg {
   // explicit quantization (per attribute id): bits in qbits, origin/range here
   std::map<int, std::pair<std::vector<float>, float>> explicit_q;
   bool use_plain_encoder = false;  // draco::Encoder (options by attribute type) instead of ExpertEncoder
+  // plain Encoder only: the SAME Encoder object first encodes a fixed two-triangle mesh (with the same options) before it encodes the
+  // geometry of the case, so that everything the object tracks is observed after a history of depth 1
+  bool preface_mesh_encode = false;
 };
 
 inline std::string text(const EncCfg &c) {
@@ -351,6 +354,26 @@ inline EncResult encode(const GeomDef &g, const PointCloud &pc, const Mesh *m, c
         r.pred_status = ps.error_msg_string();
         return r;
       }
+    }
+    if (c.preface_mesh_encode) {
+      // a fixed mesh with one attribute of every type the case quantizes (options are set by attribute type)
+      static std::unique_ptr<Mesh> preface;
+      if (!preface) {
+        GeomDef pg;
+        pg.is_mesh = true;
+        pg.num_points = 4;
+        pg.faces = {{0, 1, 2}, {2, 1, 3}};
+        AttDef pa;
+        pa.type = GeometryAttribute::POSITION;
+        pa.dt = DT_FLOAT32;
+        pa.nc = 3;
+        pa.uid = 0;
+        for (int i = 0; i < 4; ++i) pa.entries.push_back(bytes_of(std::vector<float>{(float)(i & 1), (float)(i >> 1), 0.25f * i}));
+        pg.atts = {pa};
+        preface = build_mesh(pg);
+      }
+      EncoderBuffer scratch;
+      (void)e.EncodeMeshToBuffer(*preface, &scratch);
     }
     st = m ? e.EncodeMeshToBuffer(*m, &buf) : e.EncodePointCloudToBuffer(pc, &buf);
     r.num_encoded_points = e.num_encoded_points();
